@@ -142,6 +142,31 @@ def decide(prop, tier, seed, quiet=False, vc=None):
     if vc is None:
         vc = run_vc(prop, tier, seed)
     rtc = run_rtc(prop, tier, seed)
+    escalated = False
+    if tier == "quick" and not rtc.get("violations") and not rtc.get("error"):
+        led0 = load_ledger()
+        drifted = [o for o in vc.get("obligations", [])
+                   if o["status"] == "anchor_error" or
+                   (o["status"] in ("unknown", "timeout") and led0.get(o["name"], {}).get("status") != "discharged")]
+        changed = []
+        ref = load_ledger("code_hashes")
+        if ref:
+            try:
+                from pyvc.source import SourceIndex
+                cur = SourceIndex(REPO).code_hashes()
+                changed = sorted(m for m in set(ref) | set(cur) if ref.get(m) != cur.get(m))
+            except Exception:
+                changed = ["<source not readable>"]
+        if drifted or changed:
+            # the code of the package differs from the reference tree (ledger.json: code_hashes), or a
+            # function in scope has changed beyond what the contracts can follow (it left the verified
+            # subset, or its anchors moved).  On changed code the bounded layer looks as hard as the
+            # thorough tier does (larger boxes, seeded samples, sizes beyond 2**8 .. 2**11) before the
+            # check settles; on the reference tree the quick tier stays quick.
+            rtc2 = run_rtc(prop, "thorough", seed)
+            if rtc2.get("violations") and not rtc2.get("error"):
+                rtc = rtc2
+                escalated = True
     known = load_known()
     ledger = load_ledger()
     lines = []
@@ -156,6 +181,9 @@ def decide(prop, tier, seed, quiet=False, vc=None):
         if code == 3 or code > exit_code or (code == 1 and exit_code == 2):
             exit_code = code if not (exit_code == 1 and code == 2) else exit_code
 
+    if escalated:
+        lines.append("NOTE: the package's code differs from the reference tree; the bounded layer was escalated "
+                     "to the thorough boxes and found the violations below")
     # ---- engine health
     if vc.get("engine_error"):
         lines.append("CHECKER-BROKEN: %s" % vc["engine_error"])
@@ -449,6 +477,7 @@ def main(argv):
             json.dump({"_comment": "committed; generated by `./check ledger` on the reference tree; "
                                    "never written by a check", "obligations": led,
                        "reachable_sites": reach,
+                       "code_hashes": __import__("pyvc.source", fromlist=["SourceIndex"]).SourceIndex(REPO).code_hashes(),
                        "refuted_sites": sorted(k for k, v in sites.items() if v == "unsat")},
                       f, indent=0, sort_keys=True)
         print("cover sites: %d not refuted (%d proved reachable), refuted: %s" % (
